@@ -939,6 +939,62 @@ def check_man_argument(case, t):
 
 
 # ---------------------------------------------------------------------------
+# part CL : continuous burns of one day and longer (dv= form)
+
+CL_DURATIONS = {"26h": 26 * 3600, "1d": 86400, "2d": 2 * 86400, "1d+1us": 86400 + 1e-6, "3h": 3 * 3600}
+
+
+def check_long_burn(case, t):
+    from datetime import timedelta
+    from beyond.orbits import Orbit, StateVector
+    from beyond.orbits.man import ContinuousMan
+    from beyond.propagators.keplernum import KeplerNum
+
+    dname, tag = case["duration"], case["tag"]
+    T = CL_DURATIONS[dname]
+    dur = timedelta(seconds=T)
+    dv = A((1.2, -0.8, 0.5))
+    y = dict(states())["r6g0a1"]
+    key = ("CL", dname, tag)
+    t.ev(key)
+    t.state(key)
+    clause = "a continuous maneuver given by its delta-v has the acceleration delta-v / duration along its axes, and delivers its full delta-v over its duration"
+    try:
+        man = ContinuousMan(_G["epoch"] + timedelta(hours=1), dur, dv=list(dv), frame=tag)
+        sv = StateVector(y, _G["epoch"] + timedelta(hours=2), "cartesian", "EME2000")
+        acc = A(man.accel(sv))
+        t.trans()
+    except LIBERR as e:
+        t.fail(f"man/ContinuousMan.dv/long-duration/raises-{type(e).__name__}", clause, case, "acceleration", repr(e)[:200])
+        return
+    want = triad(tag, y).T @ dv / dur.total_seconds()
+    err = float(np.linalg.norm(acc - want)) if np.all(np.isfinite(acc)) else float("inf")
+    if not t.margin("CL: acceleration of a long burn vs dv / duration along the axes / (64 eps cond)", err, 64 * EPS * cond(y) * float(np.linalg.norm(want)) + 1e-300):
+        t.fail("man/ContinuousMan.dv/long-duration/acceleration", clause, case, want.tolist(), [repr(float(x)) for x in acc],
+               f"duration {dname} tag {tag}: |accel| x duration = {float(np.linalg.norm(acc)) * dur.total_seconds()!r} m/s for |dv| = {float(np.linalg.norm(dv))!r}")
+        return
+    if tag is not None:
+        return
+    # delivered delta-v in free motion (no body), one-hour steps, burn edges on the grid
+    try:
+        prop = KeplerNum(timedelta(hours=1), [], method="rk4")
+        orb = Orbit(y, _G["epoch"], "cartesian", "EME2000", prop)
+        orb.maneuvers = [ContinuousMan(_G["epoch"] + timedelta(hours=1), dur, dv=list(dv), frame=None)]
+        n = int(math.ceil(T / 3600.0)) + 3
+        last = A(list(orb.iter(stop=_G["epoch"] + timedelta(hours=n)))[-1])
+        t.trans(n)
+    except LIBERR as e:
+        t.fail(f"man/ContinuousMan.dv/long-duration/propagation-raises-{type(e).__name__}", clause, case, "states", repr(e)[:200])
+        return
+    got = last[3:] - y[3:]
+    on_grid = abs(T / 3600.0 - round(T / 3600.0)) < 1e-12
+    tol = 1e-10 if on_grid else float(np.linalg.norm(dv)) / T * 3600.0 + 1e-10
+    e2 = float(np.linalg.norm(got - dv)) if np.all(np.isfinite(got)) else float("inf")
+    if not t.margin("CL: delivered delta-v of a long burn (free motion) / tol", e2, tol):
+        t.fail("man/ContinuousMan.dv/long-duration/delivered-dv", clause, case, dv.tolist(), [repr(float(x)) for x in got], f"duration {dname}: delivered {got.tolist()}")
+
+
+# ---------------------------------------------------------------------------
 # units
 
 
@@ -978,6 +1034,7 @@ def units(tier, seed):
     mh = [dict(part="MH", cls=c, order=list(o), kind=k) for c in MH_CLASSES for o in (("A", "B"), ("B", "A"), ("A", "A"), ("B", "B"), ("A", "B", "A"))
           for k in ("propagation", "direct-call")]
     u.append((cfg, dict(part="MH", cases=mh)))
+    u.append((cfg, dict(part="CL", cases=[dict(part="CL", duration=d, tag=tg) for d in CL_DURATIONS for tg in TAGS])))
     ma = [dict(part="MA", arg=a, container=c, kind=k, mutate=m) for a in MA_ARGS for c in MA_CONTAINERS for k in ("propagation", "direct-call") for m in (False, True)]
     u.append((cfg, dict(part="MA", cases=ma)))
     methods = ["euler", "rk4", "dopri54"] + (["rkf54"] if tier == "thorough" else [])
@@ -1030,6 +1087,8 @@ def check_case(case, t):
         check_man_reuse(case, t)
     elif part == "MA":
         check_man_argument(case, t)
+    elif part == "CL":
+        check_long_burn(case, t)
     elif part == "K":
         check_dkep(case, t)
     elif part == "N":
